@@ -21,6 +21,7 @@
 #include <unistd.h>
 #include <sys/stat.h>
 #include <dirent.h>
+#include <fnmatch.h>
 
 #include <algorithm>
 #include <functional>
@@ -98,6 +99,12 @@ struct Opts {
   uint64_t seed = 1;
   std::set<std::string> known;              // failure keys listed as known findings
   std::map<std::string, std::string> kv;    // extra --key=value options for the harness
+  // known-finding keys may end in a glob ("j3-disp:vpdp*"); returns the matching listed key or "".
+  std::string known_match(const std::string& key) const {
+    if (known.count(key)) return key;
+    for (const std::string& k : known) if (k.find_first_of("*?[") != std::string::npos && fnmatch(k.c_str(), key.c_str(), 0) == 0) return k;
+    return std::string();
+  }
   long geti(const char* k, long dflt) const { auto it = kv.find(k); return it == kv.end() ? dflt : atol(it->second.c_str()); }
   bool is_thorough() const { return tier == "thorough"; }
 };
@@ -110,6 +117,7 @@ struct Ctx {
   std::unordered_set<uint64_t> nontrivial_hashes;
   std::map<std::string, uint64_t> classes;
   std::map<std::string, uint64_t> known_hits;
+  std::map<std::string, std::pair<uint64_t, std::string>> collected;   // --collect=1: every failure key with count + first message
   std::vector<std::string> samples;
   std::vector<std::string> notes;
   size_t max_samples = 6;
@@ -135,10 +143,11 @@ struct Ctx {
   // Reports a failure unless its key is a listed known finding (then it is counted and the case continues).
   // Returns true if the finding is known (caller continues).
   bool fail_unless_known(const std::string& key, const std::string& msg) {
-    if (opts && opts->known.count(key)) { known_hits[key]++; return true; }
+    if (opts) { std::string k = opts->known_match(key); if (!k.empty()) { known_hits[k]++; return true; } }
+    if (opts && opts->geti("collect", 0)) { auto& e = collected[key]; if (e.first++ == 0) e.second = msg; return true; }   // triage mode
     throw Failure{key, msg};
   }
-  bool is_known(const std::string& key) const { return opts && opts->known.count(key) != 0; }
+  bool is_known(const std::string& key) const { return opts && !opts->known_match(key).empty(); }
   void known_excluded(const std::string& key) { known_hits[key]++; }
 };
 
@@ -206,6 +215,9 @@ inline void dump_counters(const Ctx& ctx, const std::string& path, const std::st
   s += "},\n  \"known_hits\": {";
   first = true;
   for (auto& kv : ctx.known_hits) { snprintf(b, sizeof b, "%" PRIu64, kv.second); s += (first ? "" : ", "); s += "\"" + json_escape(kv.first) + "\": " + b; first = false; }
+  s += "},\n  \"collected\": {";
+  first = true;
+  for (auto& kv : ctx.collected) { snprintf(b, sizeof b, "%" PRIu64, kv.second.first); s += (first ? "" : ", "); s += "\"" + json_escape(kv.first) + "\": [" + b + ", \"" + json_escape(kv.second.second) + "\"]"; first = false; }
   s += "},\n  \"samples\": [";
   first = true;
   for (auto& x : ctx.samples) { s += (first ? "" : ", "); s += "\"" + json_escape(x) + "\""; first = false; }
@@ -349,7 +361,7 @@ static int vh_main(int argc, char** argv) {
         Failure f;
         ctx.cls("regress_cases");
         if (run_plain(c, ctx, &f)) {
-          if (o.known.count(f.key)) { ctx.known_hits[f.key]++; continue; }
+          { std::string kk = o.known_match(f.key); if (!kk.empty()) { ctx.known_hits[kk]++; continue; } }
           dump_counters(ctx, base + ".json", "fail", path, f.key, f.msg);
           printf("FAIL key=%s replay=%s msg=%s\n", f.key.c_str(), path.c_str(), f.msg.c_str());
           return 1;
@@ -366,7 +378,7 @@ static int vh_main(int argc, char** argv) {
       write_current(text);
       Failure f;
       if (run_plain(c, ctx, &f)) {
-        if (o.known.count(f.key)) { ctx.known_hits[f.key]++; continue; }
+        { std::string kk = o.known_match(f.key); if (!kk.empty()) { ctx.known_hits[kk]++; continue; } }
         std::string rp = base + ".case";
         write_file(rp, "# property " + std::string(vh_property()) + " key=" + f.key + "\n# " + f.msg + "\n" + text + "end\n");
         dump_counters(ctx, base + ".json", "fail", rp, f.key, f.msg);
